@@ -32,11 +32,13 @@ def gen_C12(tier, seed):
     for r_ in range(reps):
         extra = rng.random() < 0.5
         # unequal row counts
-        for na, nb in [(5, 3), (3, 5), (5, 1), (1, 5), (4, 2)]:
+        # (a later data set that is LONGER than the first one is silently truncated: known finding K02, why = 'rows'; a SHORTER one
+        #  must be refused - a single row used to be broadcast over all rows: F40, why = 'rowsshort')
+        for na, nb in [(5, 3), (3, 5), (5, 1), (1, 5), (4, 2), (9, 8), (2, 1)]:
             for route in ('inline', 'dict', 'struct', 'h5'):
                 if route == 'struct':
                     continue       # a structured array cannot have fields of different lengths
-                p = fringe(f'rows-{na}-{nb}-{route}-{r_}', 'rows')
+                p = fringe(f'rows-{na}-{nb}-{route}-{r_}', 'rows' if nb > na else 'rowsshort')
                 lf, _ = base_lf(p)
                 a, b = rand_array(rng, 'float64', na), rand_array(rng, rng.choice(DTYPES), nb, rng.choice([None, 2]))
                 if route == 'inline':
@@ -49,7 +51,7 @@ def gen_C12(tier, seed):
                 if extra:
                     add_all_classes(p, lf, rng, refs={}, classes=['zone', 'parameter', 'comment'])
                 p.write(1, route='none' if route == 'inline' else route, data_arrays=arrs, valid=False, mustraise='rows',
-                        in_chunk=rng.choice([None, 2]))
+                        in_chunk=rng.choice([None, 2]) if (na, nb) != (9, 8) else 8)
                 progs.append(p.build())
         # unsupported dtypes, more than two dimensions
         for dt in ['int64', 'uint64', 'float16', 'bool', 'complex64']:
